@@ -267,9 +267,42 @@ Definition obs_of (st : state) : dbobs :=
 
 Record phase := { p_res : option res; p_db : dbobs; p_evs : list event }.
 
-Inductive op := OCall (c : call) | OConc (a b : call) | ORelease.
+Inductive op :=
+| OCall (c : call)
+| OConc (a b : call)
+| ORelease
+| OPark (a : call) (bs : list call).
 
-(* OConc a b: b is attempted while a holds the guard, then a runs to completion *)
+(* the part of a call that runs before the back-pressure permit is awaited succeeds:
+   commit_result waits for the permit first; execute_and_commit prepares (verification,
+   execution, create_block_changes) first *)
+Definition prepare_ok (st : state) (c : call) : bool :=
+  match c with
+  | Commit _ _ _ _ _ _ => true
+  | Exec b verify_ok exec _ =>
+      match verify_and_execute b verify_ok exec, create_block_changes (sdb st) b with
+      | inr _, inr _ => true
+      | _, _ => false
+      end
+  end.
+
+(* the call parks on the back-pressure semaphore (no permit is free), holding the guard *)
+Definition parks (st : state) (c : call) : bool := negb (acquire st) && prepare_ok st c.
+
+(* calls made one after the other *)
+Fixpoint run_calls (st : state) (cs : list call) : state * list phase :=
+  match cs with
+  | [] => (st, [])
+  | c :: r =>
+      let '(st1, res, ev) := run_call st c in
+      let '(st2, ps) := run_calls st1 r in
+      (st2, {| p_res := Some res; p_db := obs_of st1; p_evs := ev |} :: ps)
+  end.
+
+(* OConc a b: b is attempted while a holds the guard, then a runs to completion.
+   OPark a bs: a parks on back-pressure (notification buffer full); the calls bs are attempted
+   meanwhile; then the subscriber releases its results and a proceeds.  If a does not park it
+   simply runs, bs are not attempted, and the subscriber releases afterwards. *)
 Definition step (st : state) (o : op) : state * list phase :=
   match o with
   | OCall c =>
@@ -290,6 +323,19 @@ Definition step (st : state) (o : op) : state * list phase :=
   | ORelease =>
       let st' := set_held st 0 in
       (st', [{| p_res := None; p_db := obs_of st'; p_evs := [] |}])
+  | OPark a bs =>
+      if negb (busy st) && parks st a then
+        let st1 := set_busy st true in
+        let '(st2, psb) := run_calls st1 bs in        (* the guard is taken: all rejected *)
+        let st3 := set_held st2 0 in                  (* the subscriber releases *)
+        let '(st4, ra, eva) := body st3 a in
+        let st5 := set_busy st4 false in
+        (st5, psb ++ [{| p_res := Some ra; p_db := obs_of st5; p_evs := eva |}])
+      else
+        let '(st1, ra, eva) := run_call st a in
+        let st2 := set_held st1 0 in
+        (st2, [{| p_res := Some ra; p_db := obs_of st1; p_evs := eva |};
+               {| p_res := None; p_db := obs_of st2; p_evs := [] |}])
   end.
 
 Fixpoint run (st : state) (ops : list op) : list (list phase) :=
@@ -409,6 +455,33 @@ Definition with_held (o : dbobs) (h : N) : dbobs :=
   {| o_latest := o_latest o; o_blocks := o_blocks o; o_cons := o_cons o; o_txs := o_txs o;
      o_root := o_root o; o_marks := o_marks o; o_held := h |}.
 
+(* preparation of the call succeeds on the observed database (no verifier / executor failure,
+   next height, nothing stored for the block yet) *)
+Definition prepare_okb (o : dbobs) (c : call) : bool :=
+  match c with
+  | Commit _ _ _ _ _ _ => true
+  | Exec b verify_ok exec _ =>
+      verify_ok && match bcons b with CPoA => true | CGenesis => false end &&
+      match exec with Some _ => true | None => false end &&
+      next_heightb o b && freshb o b
+  end.
+Definition parksb (cp : N) (o : dbobs) (c : call) : bool := negb (o_held o <? cp) && prepare_okb o c.
+
+Fixpoint split_last {A} (l : list A) : option (list A * A) :=
+  match l with
+  | [] => None
+  | [x] => Some ([], x)
+  | x :: r => match split_last r with Some (pre, y) => Some (x :: pre, y) | None => None end
+  end.
+
+(* calls attempted while another call holds the guard: each rejected, nothing changes *)
+Fixpoint rejected_okb (cp : N) (o : dbobs) (cs : list call) (ps : list phase) : bool :=
+  match cs, ps with
+  | [], [] => true
+  | c :: cs', p :: ps' => phase_okb cp true o c p && rejected_okb cp o cs' ps'
+  | _, _ => false
+  end.
+
 Fixpoint trace_okb (cp : N) (o : dbobs) (ops : list op) (obs : list (list phase)) : bool :=
   match ops, obs with
   | [], [] => true
@@ -419,6 +492,24 @@ Fixpoint trace_okb (cp : N) (o : dbobs) (ops : list op) (obs : list (list phase)
   | ORelease :: ops', [p] :: obs' =>
       match p_res p with None => true | Some _ => false end &&
       dbobs_eqb (p_db p) (with_held o 0) && is_nil (p_evs p) && trace_okb cp (p_db p) ops' obs'
+  | OPark a bs :: ops', ps :: obs' =>
+      match split_last ps with
+      | None => false
+      | Some (pre, lst) =>
+          if parksb cp o a
+          then (* [rejected calls ..; the parked call after the release] *)
+               rejected_okb cp o bs pre && phase_okb cp false (with_held o 0) a lst &&
+               trace_okb cp (p_db lst) ops' obs'
+          else (* [the call; the release] *)
+               match pre with
+               | [pa] =>
+                   phase_okb cp false o a pa &&
+                   match p_res lst with None => true | Some _ => false end &&
+                   dbobs_eqb (p_db lst) (with_held (p_db pa) 0) && is_nil (p_evs lst) &&
+                   trace_okb cp (p_db lst) ops' obs'
+               | _ => false
+               end
+      end
   | _, _ => false
   end.
 
@@ -558,6 +649,8 @@ Definition T_op (t : T) : option op :=
   | L [I 1%Z; a; b] => match T_call a, T_call b with
                        | Some a, Some b => Some (OConc a b) | _, _ => None end
   | L [I 2%Z] => Some ORelease
+  | L [I 3%Z; a; L bs] => match T_call a, mapM T_call bs with
+                          | Some a, Some bs => Some (OPark a bs) | _, _ => None end
   | _ => None
   end.
 
